@@ -36,6 +36,9 @@ type groupCase struct {
 	// (1: opposite Null setting, 2: same setting, 3: opposite setting, then sorted by the first key,
 	// 4: opposite setting over the first key column only, then filtered with a clause that keeps every row)
 	Chain int `json:"chain,omitempty"`
+	// Battery: 1 = the returned frame (aggregate / distinct result) also goes through the latent-state battery
+	// (battery.go); 2 = the INPUT frame and frames derived from it go through it (deep); 3 = deep, on the battery frame
+	Battery int `json:"battery,omitempty"`
 }
 
 func c04KeyAlphabet(k model.Kind) []model.Cell {
@@ -281,6 +284,17 @@ func groupbyFnsWith(c groupCase, groupNull bool) []groupby.ConfigFunc {
 }
 
 func runGroupCase(c groupCase) *core.Failure {
+	if c.Battery == 3 {
+		bf, decl := batteryFrame()
+		q := model.BuildShape(bf, c.Shape)
+		// the operation of the property once on the frame, then the battery on the frame and on frames derived from it
+		if c.Op == "distinct" {
+			_ = q.Distinct(groupby.Columns("e", "s"))
+		} else {
+			_ = q.GroupBy(groupby.Columns("e", "s")).Aggregate(qframe.Aggregation{Fn: "count", Column: "n"})
+		}
+		return latentDeep(q, decl, "the battery frame ("+model.ShapeNames[c.Shape]+")")
+	}
 	c.Frame.Fix()
 	qf := model.BuildShape(c.Frame, c.Shape)
 	if c.Perm != nil {
@@ -316,6 +330,9 @@ func runGroupCase(c groupCase) *core.Failure {
 		}
 		in.AdoptMeta(c.Frame)
 	}
+	if c.Battery == 2 {
+		return latentDeep(qf, declOf(in), fmt.Sprintf("the input frame (shape %s) %s", model.ShapeNames[c.Shape], in))
+	}
 	before := in.String()
 	by := c.By
 	if len(by) == 0 && c.Op == "distinct" {
@@ -349,7 +366,17 @@ func runGroupCase(c groupCase) *core.Failure {
 }
 
 func checkDistinct(c groupCase, qf qframe.QFrame, in model.Frame, by []string, groups [][]int) *core.Failure {
-	out := model.Observe(qf.Distinct(groupbyFns(c)...))
+	distRes := qf.Distinct(groupbyFns(c)...)
+	out := model.Observe(distRes)
+	if c.Battery == 1 && !out.Err {
+		w := fmt.Sprintf("the frame returned by Distinct(by=%v null=%v) shape %s", c.By, c.GroupNull, model.ShapeNames[c.Shape])
+		if f := latentBattery(distRes, declOf(in), w); f != nil {
+			return f
+		}
+		if f := bookkeepingBattery(distRes, w); f != nil {
+			return f
+		}
+	}
 	desc := fmt.Sprintf("Distinct(by=%v default=%v null=%v) shape %s\n input: %s\n   got: %s", c.By, c.ByDefault, c.GroupNull, model.ShapeNames[c.Shape], in, out)
 	if out.Err {
 		return core.Failf("Distinct set Err: %s", out.ErrText)
@@ -450,9 +477,18 @@ func checkGroupBy(c groupCase, qf qframe.QFrame, in model.Frame, by []string, gr
 		}
 		aggs = append(aggs, qframe.Aggregation{Fn: fn, Column: a.col, As: a.as})
 	}
-	out := model.Observe(g.Aggregate(aggs...))
+	aggRes := g.Aggregate(aggs...)
+	out := model.Observe(aggRes)
 	if out.Err {
 		return core.Failf("Aggregate set Err: %s: %s", out.ErrText, desc)
+	}
+	if c.Battery == 1 {
+		if f := latentBattery(aggRes, declOf(in), "the frame returned by Aggregate after "+desc); f != nil {
+			return f
+		}
+		if f := bookkeepingBattery(aggRes, "the frame returned by Aggregate after "+desc); f != nil {
+			return f
+		}
 	}
 	// expected frame
 	want := model.Frame{N: len(groups)}
@@ -605,6 +641,9 @@ func groupLayerRun(ctx *core.Ctx, op string) {
 								}
 								shape := int(ctx.Index() % int64(model.NShapes))
 								c := groupCase{Op: op, Frame: f, Shape: shape, By: by, GroupNull: gn, ByDefault: def}
+								if n == 2 && (bi == 1 || bi == 3) && !def && (op == "distinct" || (k2 == model.Int && !gn && bi == 1)) {
+									c.Battery = 1 // (aggregate results have some twenty columns: a thinner selection for GroupBy)
+								}
 								ctx.Exec(c, func() *core.Failure { return runGroupCase(c) })
 								g := partitionRows(f, by, gn)
 								if len(g) > 1 && len(g) < n {
@@ -940,6 +979,43 @@ func oddNamesLayerRun(ctx *core.Ctx, op string) {
 	}
 }
 
+// batteryLayerRun: latent state. The battery frame in every index shape, and one three-row input frame per key type
+// (deep battery: the frame itself and frames derived from it by one further operation each).
+func batteryLayerRun(ctx *core.Ctx, op string) {
+	for shape := 0; shape < model.NShapes; shape++ {
+		if ctx.Mine() {
+			c := groupCase{Op: op, Shape: shape, Battery: 3}
+			ctx.Exec(c, func() *core.Failure { return runGroupCase(c) })
+			ctx.Outcome("api/latent-state-battery")
+			ctx.Nontrivial(fmt.Sprintf("battery|%d", shape))
+		}
+	}
+	for _, k1 := range []model.Kind{model.Int, model.Float, model.Bool, model.String, model.Enum} {
+		a1 := c04KeyAlphabet(k1)
+		for shape := 0; shape < model.NShapes; shape += 3 {
+			if !ctx.Mine() {
+				continue
+			}
+			c1 := model.Col{Name: "k1", Kind: k1}
+			if k1 == model.Enum {
+				c1.EnumVals = []string{"b", "a"}
+			}
+			for i := 0; i < 3; i++ {
+				c1.Cells = append(c1.Cells, a1[(i*2+1)%len(a1)])
+			}
+			f := model.Frame{N: 3, Cols: []model.Col{c1}}
+			for _, vc := range c04ValCols {
+				vc.Cells = vc.Cells[:3]
+				f.Cols = append(f.Cols, vc)
+			}
+			c := groupCase{Op: op, Frame: f, Shape: shape, By: []string{"k1"}, Battery: 2}
+			ctx.Exec(c, func() *core.Failure { return runGroupCase(c) })
+			ctx.Outcome("api/latent-state-battery")
+			ctx.Nontrivial(fmt.Sprintf("battery-in|%s|%d", k1, shape))
+		}
+	}
+}
+
 // chainLayerRun: the call under test on the result of an earlier Distinct (see groupCase.Chain); one or two
 // key columns of every type over {null, x, y}.
 func chainLayerRun(ctx *core.Ctx, op string) {
@@ -1018,6 +1094,7 @@ func init() {
 			upperKeyLayerRun(ctx, "groupby")
 			oddNamesLayerRun(ctx, "groupby")
 			chainLayerRun(ctx, "groupby")
+			batteryLayerRun(ctx, "groupby")
 		},
 		Replay: replayGroup,
 	})
@@ -1043,6 +1120,7 @@ func init() {
 			upperKeyLayerRun(ctx, "distinct")
 			oddNamesLayerRun(ctx, "distinct")
 			chainLayerRun(ctx, "distinct")
+			batteryLayerRun(ctx, "distinct")
 		},
 		Replay: replayGroup,
 	})
